@@ -24,7 +24,7 @@ let mode_of s = match s with "ro" -> ReadOnly | "rw" -> ReadWrite | "ow" -> Over
 let comp_of s = match s with "none" -> CompNone | "deflate" -> CompDeflate | "auto" -> CompAuto | _ -> failwith "bad compression"
 let zs l = OLst.map z_of_string l
 
-let parse toks = match toks with
+let parse1 toks = match toks with
   | ["fs"; v] -> CFs (cstr v)
   | ["hdr"; d] ->
     let rest n = OStr.sub d n (OStr.length d - n) in
@@ -65,11 +65,20 @@ let parse toks = match toks with
   | ["killrun"] -> CKillrun
   | _ -> failwith ("bad command: " ^ OStr.concat " " toks)
 
-let state = ref init
+let parse toks = match toks with
+  | ["open2"; m; c; f] -> COpen2 (mode_of m, comp_of c, f = "1")
+  | ["mutin2"; name; uc] -> CMutIn2 (cstr name, uc = "1")
+  | ["blk2"; n] -> CBlk2 (cstr n)
+  | ["dump2"] -> CDump2
+  | ["flush2"] -> CFlush2
+  | ["close2"] -> CClose2
+  | _ -> C1 (parse1 toks)
+
+let state = ref init2
 
 let handle toks =
   let c = parse toks in
-  let ((st, ans), sp) = sstep !state c in
+  let ((st, ans), sp) = sstep2 !state c in
   state := st;
   let m = show_answer ans in
   match sp with
